@@ -37,7 +37,7 @@ ASSUMPTIONS = [
     "[EAM-ADP-Dipole]/[EAM-ADP-Quadrupole] entries are not 'pair, embedding and density entries' and stay in the "
     "hand-edited file",
 ]
-REQUIRED = {"mode:include": 40, "mode:exclude": 40, "kind:pair": 20, "kind:eam": 15, "kind:fs": 15, "kind:adp": 5,
+REQUIRED = {"fs:species_in_density_keys_only": 3, "mode:include": 40, "mode:exclude": 40, "kind:pair": 20, "kind:eam": 15, "kind:fs": 15, "kind:adp": 5,
             "removes_and_keeps": 50, "views>=2": 40, "views_tabulated": 25, "unknown_label": 15, "empty_include": 5,
             "route:main": 25, "only_unknown_labels:include:command_line_glue": 2, "only_unknown_labels:exclude:command_line_glue": 2}
 
@@ -67,9 +67,19 @@ def _filter(draw, species, shape=None, mode=None):
 
 
 @st.composite
-def _case(draw, targets=None, shape=None, mode=None):
+def _case(draw, targets=None, shape=None, mode=None, density_only=False):
     m = draw(gen.any_model(targets, 2, 4, depth=0))
     sp = m["species"] if m["kind"] == "pair" else m["elements"]
+    if density_only:
+        # a Finnis-Sinclair model in which one species is mentioned by 'A->B' density keys ONLY (no embedding
+        # function, no pair interaction: both are zero-filled): its density entries are entries like any other
+        with_embed = [a for a, _ in m["embed"]]
+        x = draw(st.sampled_from([e for e in m["elements"] if e != with_embed[0]] or m["elements"][1:]))
+        m["embed"] = [e for e in m["embed"] if e[0] != x]
+        m["pair"] = [e for e in m["pair"] if x not in (e[0], e[1])]
+        if not any(x in (e[0], e[1]) for e in m["density_fs"]):
+            m["density_fs"].append([with_embed[0], x, {"ranges": [{"m": None, "s": None, "body": {"k": "form", "name": "polynomial", "p": [0, 0.5]}}]}])
+        m["density_only_species"] = x
     flt = draw(_filter(sp, shape, mode))
     others = draw(st.lists(_filter(sp), min_size=0, max_size=3))
     order = draw(st.permutations(list(range(len(others) + 1))))
@@ -91,6 +101,9 @@ def strata(tier):
             out.append(("%s:%s:full" % (nm, mode), _case(tg, "full", mode), w))
             out.append(("%s:%s:only_unknown" % (nm, mode), _case(tg, "only_unknown", mode), w))
         out.append(("%s:empty_include" % nm, _case(tg, "empty", "include"), w))
+    fs = sorted(t for t, k in gen.EAM_TARGETS.items() if k == "fs")
+    for mode in ("include", "exclude"):
+        out.append(("fs:density_only_species:" + mode, st.one_of(_case(fs, "partial", mode, True), _case(fs, "only_unknown", mode, True)), 4))
     return out
 
 
@@ -146,6 +159,8 @@ def check_case(case):
     m, flt = case["model"], case["filter"]
     kind, target = m["kind"], m["target"]
     cls = ["mode:" + flt["mode"], "kind:" + kind, "target:" + target, "route:" + case["route"]]
+    if m.get("density_only_species") and m["density_only_species"] not in flt["species"]:
+        cls.append("fs:species_in_density_keys_only")
     secs = anymodel.sections_of(m)
     text = anymodel.text_of(secs)
     edited, removed, kept = hand_edit(secs, flt)
